@@ -618,7 +618,7 @@ fn replay(timeout_ms: u64, ticks: u64, threads: usize) {
 // ------------------------------------------------------------------------------------------------
 // byte-offset cuts of seed responses (code -> spec)
 // ------------------------------------------------------------------------------------------------
-fn seeds(rng: &mut Rng, n: usize) -> Vec<(Vec<Seg>, usize)> {
+fn seeds(rng: &mut Rng, n: usize, nbig: usize) -> Vec<(Vec<Seg>, usize)> {
     let codes: [u64; 12] = [200, 201, 206, 301, 404, 410, 500, 503, 204, 304, 308, 429];
     let hdr_cat = ["content-type: text/html; charset=utf-8", "set-cookie: a=1; Path=/", "set-cookie: b=2", "x-up: v w", "etag: \"abc:def\"",
                    "location: http://h.example:8080/x?y=1", "x-unicode: caf\u{e9} \u{1f600}", "server: up/1.0", "cache-control: no-cache, max-age=0"];
@@ -670,6 +670,26 @@ fn seeds(rng: &mut Rng, n: usize) -> Vec<(Vec<Seg>, usize)> {
         }
         out.push((segs, s));
     }
+    // large bodies (several socket reads, BufReader refills): cut at sampled offsets only
+    for b in 0..nbig {
+        let fr = ["cl", "chunked", "close"][b % 3];
+        let units: Vec<Vec<u8>> = (0..3).map(|_| { let n = rng.range(9000, 30000); rng.bytes(n) }).collect();
+        let total: usize = units.iter().map(|u| u.len()).sum();
+        let mut segs = vec![Seg::new("status", "", 200), Seg::new("hdr", "content-type: application/octet-stream", 0)];
+        match fr {
+            "cl" => segs.push(Seg::new("cl", "", total as u64)),
+            "chunked" => segs.push(Seg::new("te", "", 0)),
+            _ => {}
+        }
+        segs.push(Seg::new("blank", "", 0));
+        for u in &units {
+            segs.push(Seg::new(if fr == "chunked" { "chunk" } else { "data" }, &hex(u), 0));
+        }
+        if fr == "chunked" {
+            segs.push(Seg::new("last", "", 0));
+        }
+        out.push((segs, 1000 + b));
+    }
     // two fixed non-HTTP seeds: every prefix of them must give 502 as well
     out.push((vec![Seg::new("garbage", "ssh", 0)], n));
     out.push((vec![Seg::new("status", "", 200), Seg::new("badhdr", "", 0), Seg::new("blank", "", 0)], n + 1));
@@ -708,15 +728,32 @@ struct CutJob {
     term: String,
 }
 
-fn cuts(timeout_ms: u64, threads: usize, stall_mod: usize, nseeds: usize) {
+fn cuts(timeout_ms: u64, threads: usize, stall_mod: usize, nseeds: usize, nbig: usize) {
     let mut rng = Rng::from_env();
     let state = app_state();
     let req = json!({"m": "GET", "uri": "/r/x", "q": "a=b", "ver": "HTTP/1.1", "hdrs": ["host: up.example"], "body": "-", "client": "127.0.0.1"});
     let mut jobs = vec![];
-    for (segs, sid) in seeds(&mut rng, nseeds) {
+    for (segs, sid) in seeds(&mut rng, nseeds, nbig) {
         let variant = sid;
         let bytes: Vec<u8> = segs.iter().flat_map(|s| render(s, variant)).collect();
-        for cut in 0..=bytes.len() {
+        let offsets: Vec<usize> = if bytes.len() <= 2000 {
+            (0..=bytes.len()).collect()
+        } else {
+            // segment boundaries +-1, the ends, and random offsets
+            let mut o = vec![0, bytes.len(), bytes.len() - 1, bytes.len() - 2];
+            let mut pos = 0;
+            for sg in &segs {
+                pos += render(sg, variant).len();
+                o.extend([pos.saturating_sub(1), pos, (pos + 1).min(bytes.len())]);
+            }
+            for _ in 0..24 {
+                o.push(rng.below(bytes.len()));
+            }
+            o.sort();
+            o.dedup();
+            o
+        };
+        for cut in offsets {
             for term in ["eof", "stall"] {
                 if term == "stall" && cut % stall_mod.max(1) != 0 && cut != bytes.len() {
                     continue;
@@ -870,7 +907,7 @@ fn main() {
     let num = |i: usize, d: u64| -> u64 { a.get(i).and_then(|s| s.parse().ok()).unwrap_or(d) };
     match a.get(1).map(|s| s.as_str()) {
         Some("replay") => replay(num(2, 450), num(3, 3), num(4, 32) as usize),
-        Some("cuts") => cuts(num(2, 300), num(3, 32) as usize, num(4, 4) as usize, num(5, 6) as usize),
+        Some("cuts") => cuts(num(2, 300), num(3, 32) as usize, num(4, 4) as usize, num(5, 6) as usize, num(6, 0) as usize),
         Some("lb") => lb(num(2, 4) as usize, num(3, 3) as usize),
         Some("one") => {
             let state = app_state();
